@@ -176,6 +176,16 @@ func retype(body []byte, q c18Req) []byte {
 	return b
 }
 
+// c18MdLen draws a metadata length: mostly small, in a quarter of the seeded
+// requests up to the schema's maximum of 1024 bytes (with an RSA key that
+// makes a sealed request of about 2.3 KiB).
+func c18MdLen(tp *simkit.Tape, small bool) int {
+	if !small && tp.Chance(1, 4, "mdbig") {
+		return []int{1024, 1023, 1000, 768, 512}[tp.Choose(5, "mdbiglen")]
+	}
+	return tp.Choose(200, "mdlen")
+}
+
 func kindName(ingest bool) string {
 	if ingest {
 		return "ingest"
@@ -198,7 +208,7 @@ func runC18(r *simkit.Run, c Cfg) {
 		}
 		q.mh = must(multihash.Sum(tp.Bytes(8, "content"), multihash.SHA2_256, -1))
 		q.ctxID = tp.Bytes(tp.Choose(65, "ctxlen"), "ctx")
-		q.metadata = tp.Bytes(tp.Choose(200, "mdlen"), "md")
+		q.metadata = tp.Bytes(c18MdLen(tp, c.Case >= 0), "md")
 		na := 1 + tp.Choose(3, "naddr")
 		for i := 0; i < na; i++ {
 			q.addrs = append(q.addrs, c09Addrs[tp.Choose(5, "addr")].s)
@@ -329,7 +339,7 @@ func runC18K(r *simkit.Run, c Cfg) {
 			q.signer = q.named
 			q.mh = must(multihash.Sum(tp.Bytes(8, "content"), multihash.SHA2_256, -1))
 			q.ctxID = tp.Bytes(tp.Choose(65, "ctxlen"), "ctx")
-			q.metadata = tp.Bytes(tp.Choose(200, "mdlen"), "md")
+			q.metadata = tp.Bytes(c18MdLen(tp, c.Case >= 0), "md")
 			na := 1 + tp.Choose(3, "naddr")
 			for i := 0; i < na; i++ {
 				q.addrs = append(q.addrs, c09Addrs[tp.Choose(5, "addr")].s)
